@@ -1,5 +1,5 @@
 // C19: ipdict InsertPair/InsertSingle/Sort + IPTable.Search vs model IpDict.v.
-// input : [ [[xS xE]...] [xSingle...] [xProbe...] maxSingle noUpdate ]
+// input : [ [[xS xE]...] [xSingle...] [xProbe...] maxSingle mode ] (+ [pairs2 singles2] in mode 2 = reload)
 // output: [ pairErrs singleErrs s1 s2 final results length ]  (see coq/run/RunC19.v)
 package main
 
@@ -20,11 +20,14 @@ func encPairs(ps [][2][]byte) hv.Val {
 	return out
 }
 
-func load(in hv.Val, withSingles bool) (*ipdict.IPItems, hv.L, hv.L) {
-	parts := hv.AsList(in)
-	pairs := hv.AsList(parts[0])
-	singles := hv.AsList(parts[1])
-	items, err := ipdict.NewIPItems(int(hv.AsInt(parts[3])), len(pairs)/2)
+func load(pairs, singles hv.L, maxSingle int, withSingles bool, hash func([]byte) uint64) (*ipdict.IPItems, hv.L, hv.L) {
+	var items *ipdict.IPItems
+	var err error
+	if hash == nil {
+		items, err = ipdict.NewIPItems(maxSingle, len(pairs)/2)
+	} else {
+		items, err = ipdict.VerifNewIPItemsHash(maxSingle, len(pairs)/2, hash)
+	}
 	if err != nil {
 		panic(err)
 	}
@@ -44,33 +47,111 @@ func load(in hv.Val, withSingles bool) (*ipdict.IPItems, hv.L, hv.L) {
 	return items, pe, sErr
 }
 
-func impl(in hv.Val) hv.Val {
-	parts := hv.AsList(in)
-	if len(parts) != 5 {
-		return hv.Err(0)
-	}
-	// (a) the real thing: load, IPItems.Sort(), IPTable.Update, IPTable.Search
-	items, pe, se := load(in, true)
+// one dictionary version: load, IPItems.Sort(); plus, on a second copy, the sorted array and the array after
+// the real mergeItems (sort.Sort is deterministic, so repeating the call reveals what it did inside Sort();
+// the model does not fix the order of equal keys: the driver validates the sorted array and recomputes the rest)
+func version(pairs, singles hv.L, maxSingle int, hash func([]byte) uint64) (*ipdict.IPItems, hv.L) {
+	items, pe, se := load(pairs, singles, maxSingle, true, hash)
 	items.Sort()
 	final := items.VerifPairs()
-	length := items.Length()
-	tbl := ipdict.NewIPTable()
-	if !hv.AsBool(parts[4]) {
-		tbl.Update(items)
-	}
-	res := hv.L{}
-	for _, q := range hv.AsList(parts[2]) {
-		res = append(res, hv.Bool(tbl.Search(net.IP(hv.AsBytes(q)))))
-	}
-	// (b) what sort.Sort did inside Sort(): sort.Sort is deterministic, so repeating the call on a second
-	// copy reveals the sorted array (the model does not fix the order of equal keys; the driver validates it
-	// and recomputes everything else); the real mergeItems on that copy gives the array before the reslice.
-	tr, _, _ := load(in, false)
+	tr, _, _ := load(pairs, singles, maxSingle, false, nil)
 	sort.Sort(tr.VerifSortable())
 	s1 := tr.VerifPairs()
 	tr.VerifMergeItems()
 	s2 := tr.VerifPairs()
-	return hv.L{pe, se, encPairs(s1), encPairs(s2), encPairs(final), res, hv.I(length)}
+	return items, hv.L{pe, se, encPairs(s1), encPairs(s2), encPairs(final)}
+}
+
+func searchAll(tbl *ipdict.IPTable, probes hv.L) hv.L {
+	res := hv.L{}
+	for _, q := range probes {
+		res = append(res, hv.Bool(tbl.Search(net.IP(hv.AsBytes(q)))))
+	}
+	return res
+}
+
+func impl(in hv.Val) hv.Val {
+	parts := hv.AsList(in)
+	if len(parts) != 5 && len(parts) != 7 {
+		return hv.Err(0)
+	}
+	probes := hv.AsList(parts[2])
+	maxSingle := int(hv.AsInt(parts[3]))
+	mode := hv.AsInt(parts[4])
+	tbl := ipdict.NewIPTable()
+	if mode != 2 {
+		items, o := version(hv.AsList(parts[0]), hv.AsList(parts[1]), maxSingle, nil)
+		length := items.Length()
+		if mode == 0 {
+			tbl.Update(items)
+		}
+		return append(o, searchAll(tbl, probes), hv.I(length))
+	}
+	// reload mode: version 1's single-address set gets a hash function that, when armed, performs
+	// IPTable.Update(version 2) -- i.e. between the snapshot taken by Search and its two lookup steps
+	var v2 *ipdict.IPItems
+	armed, fired := false, false
+	hash := func(k []byte) uint64 {
+		if armed {
+			armed, fired = false, true
+			tbl.Update(v2)
+		}
+		return ipdict.Hash(k)
+	}
+	v1, o1 := version(hv.AsList(parts[0]), hv.AsList(parts[1]), maxSingle, hash)
+	var o2 hv.L
+	v2, o2 = version(hv.AsList(parts[5]), hv.AsList(parts[6]), maxSingle, nil)
+	length := v1.Length()
+	tbl.Update(v1)
+	res1 := searchAll(tbl, probes)
+	mid, after := hv.L{}, hv.L{}
+	for _, q := range probes {
+		tbl.Update(v1)
+		armed, fired = true, false
+		r := tbl.Search(net.IP(hv.AsBytes(q)))
+		if !fired { // the probe is no IP address: Search returned before the set lookup
+			armed = false
+			tbl.Update(v2)
+		}
+		mid = append(mid, hv.Bool(r))
+		after = append(after, hv.Bool(tbl.Search(net.IP(hv.AsBytes(q)))))
+	}
+	// and a real race: a goroutine keeps swapping the two versions while every probe is searched again; each
+	// answer must be the version-1 or the version-2 answer (only such answers are reported as the mid column
+	// would be, so the observation stays deterministic on correct code)
+	stop, done := make(chan struct{}), make(chan struct{})
+	go func() {
+		defer close(done)
+		for i := 0; ; i++ {
+			select {
+			case <-stop:
+				return
+			default:
+			}
+			if i%2 == 0 {
+				tbl.Update(v1)
+			} else {
+				tbl.Update(v2)
+			}
+		}
+	}()
+	bad := 0
+	for rep := 0; rep < 20; rep++ {
+		for k, q := range probes {
+			r := hv.Bool(tbl.Search(net.IP(hv.AsBytes(q))))
+			if hv.String(r) != hv.String(res1[k]) && hv.String(r) != hv.String(after[k]) {
+				bad++
+			}
+		}
+	}
+	close(stop)
+	<-done
+	if bad > 0 { // impossible on linearizable code: make the mid column disagree
+		mid = append(mid, hv.I(bad))
+	}
+	out := append(o1, res1, hv.I(length))
+	out = append(out, o2...)
+	return append(out, mid, after)
 }
 
 func badLen(r *hv.Rng) int { return []int{0, 1, 3, 5, 15, 17}[r.Intn(6)] }
@@ -183,6 +264,8 @@ func gen(r *hv.Rng, i int, tier string) (string, hv.Val) {
 		}
 	}
 	var prev [2]addr
+	var pairAddrs [][2]addr
+	var singleAddrs []addr
 	for k := 0; k < n; k++ {
 		b := bases[r.Intn(nb)]
 		var s, e addr
@@ -248,6 +331,7 @@ func gen(r *hv.Rng, i int, tier string) (string, hv.Val) {
 			}
 		}
 		prev = [2]addr{s, e}
+		pairAddrs = append(pairAddrs, prev)
 		pairs = append(pairs, hv.L{hv.B(s.bytes()), hv.B(e.bytes())})
 		if len(probes) < 60 {
 			addProbe(s)
@@ -271,6 +355,7 @@ func gen(r *hv.Rng, i int, tier string) (string, hv.Val) {
 			singles = append(singles, hv.B(r.Bytes(badLen(r))))
 			continue
 		}
+		singleAddrs = append(singleAddrs, a)
 		singles = append(singles, hv.B(a.bytes()))
 		addProbe(a)
 	}
@@ -295,9 +380,43 @@ func gen(r *hv.Rng, i int, tier string) (string, hv.Val) {
 		class += "-pdq"
 	}
 	if noUpdate {
-		class = "triv-noupdate"
+		return "triv-noupdate", hv.L{pairs, singles, probes, hv.I(maxSingle), hv.I(1)}
 	}
-	return class, hv.L{pairs, singles, probes, hv.I(maxSingle), hv.Bool(noUpdate)}
+	if n > 0 && r.Chance(1, 5) {
+		// reload: a second version derived from the first so that many addresses are members of both, but
+		// represented differently (range member in one, single address in the other), or of only one
+		pairs2, singles2 := hv.L{}, hv.L{}
+		rb := func(a addr) hv.Val { a.v4 = r.Bool(); return hv.B(a.bytes()) }
+		for _, p := range pairAddrs {
+			switch r.Intn(5) {
+			case 0: // unchanged
+				pairs2 = append(pairs2, hv.L{rb(p[0]), rb(p[1])})
+			case 1: // dropped
+			case 2: // its bounds become single addresses
+				singles2 = append(singles2, rb(p[0]), rb(p[1]))
+			case 3: // an inner address becomes a single address, the range is dropped
+				singles2 = append(singles2, rb(p[0].add(1)))
+			default: // shifted
+				pairs2 = append(pairs2, hv.L{rb(p[0].add(1)), rb(p[1].add(2))})
+			}
+		}
+		for _, a := range singleAddrs {
+			switch r.Intn(3) {
+			case 0:
+				singles2 = append(singles2, rb(a))
+			case 1: // covered by a range instead
+				pairs2 = append(pairs2, hv.L{rb(a.add(-1)), rb(a.add(2))})
+			}
+		}
+		if len(singles2) > maxSingle+1 {
+			singles2 = singles2[:maxSingle+1]
+		}
+		if len(probes) > 40 {
+			probes = probes[:40]
+		}
+		return "reload-" + class, hv.L{pairs, singles, probes, hv.I(maxSingle), hv.I(2), pairs2, singles2}
+	}
+	return class, hv.L{pairs, singles, probes, hv.I(maxSingle), hv.I(0)}
 }
 
 func main() {
